@@ -19,7 +19,7 @@ use sozu_command_lib::{
     channel::Channel,
     config::{ConfigBuilder, FileConfig, ListenerBuilder},
     proto::command::{
-        request::RequestType, ActivateListener, AddBackend, Cluster, ListenerType, LoadBalancingParams, PathRule,
+        request::RequestType, ActivateListener, AddBackend, AddCertificate, CertificateAndKey, Cluster, ListenerType, LoadBalancingParams, PathRule,
         ProxyProtocolConfig, Request, RequestHttpFrontend, RequestTcpFrontend, ResponseStatus, RulePosition,
         ServerConfig, SocketAddress, Status, WorkerRequest, WorkerResponse,
     },
@@ -263,7 +263,38 @@ fn main() {
         "relay" => Some(ProxyProtocolConfig::RelayHeader as i32),
         _ => None,
     };
-    let setup = if mode == "ws" {
+    let host = if mode == "wss" { "lolcatho.st" } else { "x.test" };
+    let setup = if mode == "wss" {
+        // an HTTPS listener (rustls frontend): the upgraded pipe is Pipe<FrontRustls>
+        let cert = std::fs::read_to_string("/repo/lib/assets/certificate.pem").unwrap_or_default();
+        let key = std::fs::read_to_string("/repo/lib/assets/key.pem").unwrap_or_default();
+        vec![
+            RequestType::AddHttpsListener(ListenerBuilder::new_https(fa.clone()).to_tls(None).unwrap()),
+            RequestType::ActivateListener(ActivateListener { address: fa.clone(), proxy: ListenerType::Https.into(), from_scm: false }),
+            RequestType::AddCluster(Cluster { cluster_id: "c".into(), ..Default::default() }),
+            RequestType::AddCertificate(AddCertificate {
+                address: fa.clone(),
+                certificate: CertificateAndKey { certificate: cert, certificate_chain: vec![], key, versions: vec![], names: vec![] },
+                expired_at: None,
+            }),
+            RequestType::AddHttpsFrontend(RequestHttpFrontend {
+                cluster_id: Some("c".into()),
+                address: fa.clone(),
+                hostname: host.into(),
+                path: PathRule::prefix("/".to_string()),
+                position: RulePosition::Tree.into(),
+                ..Default::default()
+            }),
+            RequestType::AddBackend(AddBackend {
+                cluster_id: "c".into(),
+                backend_id: "c-0".into(),
+                address: back.into(),
+                load_balancing_parameters: Some(LoadBalancingParams::default()),
+                sticky_id: None,
+                backup: None,
+            }),
+        ]
+    } else if mode == "ws" {
         // an HTTP listener: the session becomes a Pipe after the backend's 101 answer to an Upgrade request
         vec![
             RequestType::AddHttpListener(ListenerBuilder::new_http(fa.clone()).to_http(None).unwrap()),
@@ -313,7 +344,58 @@ fn main() {
     }
 
     // ---- connect the client, send the incoming header if the mode wants one, accept on the backend
-    let client = match TcpStream::connect_timeout(&front, Duration::from_secs(5)) {
+    let connect_to: SocketAddr = if mode == "wss" {
+        // TLS client: `openssl s_client` behind a local plain-TCP bridge, so the scripted client stays a socket
+        let bridge = TcpListener::bind("127.0.0.1:0").unwrap();
+        let baddr = bridge.local_addr().unwrap();
+        let target = front;
+        std::thread::spawn(move || {
+            let Ok((sock, _)) = bridge.accept() else { return };
+            let child = std::process::Command::new("openssl")
+                .args(["s_client", "-connect", &target.to_string(), "-servername", "lolcatho.st", "-quiet", "-no_ign_eof", "-nocommands"])
+                .stdin(std::process::Stdio::piped())
+                .stdout(std::process::Stdio::piped())
+                .stderr(std::process::Stdio::null())
+                .spawn();
+            let Ok(mut child) = child else { return };
+            let mut cin = child.stdin.take().unwrap();
+            let mut cout = child.stdout.take().unwrap();
+            let mut s_in = sock.try_clone().unwrap();
+            let mut s_out = sock;
+            let t = std::thread::spawn(move || {
+                let mut buf = [0u8; 65536];
+                loop {
+                    match s_in.read(&mut buf) {
+                        Ok(0) | Err(_) => break,
+                        Ok(n) => {
+                            if cin.write_all(&buf[..n]).is_err() || cin.flush().is_err() {
+                                break;
+                            }
+                        }
+                    }
+                }
+                drop(cin); // end of the client's stream: s_client shuts the TLS connection down
+            });
+            let mut buf = [0u8; 65536];
+            loop {
+                match cout.read(&mut buf) {
+                    Ok(0) | Err(_) => break,
+                    Ok(n) => {
+                        if s_out.write_all(&buf[..n]).is_err() {
+                            break;
+                        }
+                    }
+                }
+            }
+            let _ = s_out.shutdown(Shutdown::Write);
+            let _ = t.join();
+            let _ = child.wait();
+        });
+        baddr
+    } else {
+        front
+    };
+    let client = match TcpStream::connect_timeout(&connect_to, Duration::from_secs(5)) {
         Ok(c) => c,
         Err(e) => {
             println!("note setup-failed connect: {e}");
@@ -324,8 +406,9 @@ fn main() {
     client.set_nonblocking(true).unwrap();
     let client_addr = client.local_addr().unwrap();
     let mut client = client;
-    if mode == "ws" {
-        let req = b"GET /chat HTTP/1.1\r\nHost: x.test\r\nConnection: Upgrade\r\nUpgrade: websocket\r\nSec-WebSocket-Key: dGhlIHNhbXBsZSBub25jZQ==\r\nSec-WebSocket-Version: 13\r\n\r\n";
+    if mode == "ws" || mode == "wss" {
+        let req = format!("GET /chat HTTP/1.1\r\nHost: {host}\r\nConnection: Upgrade\r\nUpgrade: websocket\r\nSec-WebSocket-Key: dGhlIHNhbXBsZSBub25jZQ==\r\nSec-WebSocket-Version: 13\r\n\r\n");
+        let req = req.as_bytes();
         let mut at = 0;
         let t0 = Instant::now();
         while at < req.len() && t0.elapsed() < DEADLINE {
@@ -410,7 +493,7 @@ fn main() {
     backend.set_nodelay(true).unwrap();
     backend.set_nonblocking(true).unwrap();
     let mut p = Peers { client, backend, c_got: vec![], b_got: vec![], c_eof: false, b_eof: false };
-    if mode == "ws" {
+    if mode == "ws" || mode == "wss" {
         // the backend reads the upgrade request and answers 101; the client reads the 101: from here on both
         // connections are a raw byte pipe
         let t0 = Instant::now();
@@ -630,7 +713,7 @@ fn main() {
             first_diff(&b_sent, &p.c_got)
         );
     }
-    let m = if mode == "plain" || mode == "ws" { "pipe" } else { mode.as_str() };
+    let m = if mode == "plain" || mode == "ws" || mode == "wss" { "pipe" } else { mode.as_str() };
     if !c_fin && !b_fin {
         // nobody closed: everything must have arrived (the transfers are read-acked)
         if !ok || p.b_got.len() != want_b.len() || p.c_got.len() != b_sent.len() {
@@ -671,6 +754,10 @@ fn main() {
     }
     println!("note bb: mode {mode} scenario {scenario} c_sent {} b_got {} b_sent {} c_got {}", c_sent.len(), p.b_got.len(), b_sent.len(), p.c_got.len());
     println!("obs done");
-    let _ = std::fs::remove_file(&logfile);
+    if std::env::var_os("C18BB_KEEPLOG").is_some() {
+        println!("note log {logfile}");
+    } else {
+        let _ = std::fs::remove_file(&logfile);
+    }
     std::process::exit(0);
 }
